@@ -533,3 +533,92 @@ func init() {
 	harnessAPI["vpNow"] = callStd("time", "Now")
 	harnessAPI["vpSince"] = callStd("time", "Since")
 }
+
+// ---- wall-clock readings of virtual-clock instants
+//
+// A Time produced by time.Now() (or derived from one by Add) has the
+// hasMonotonic bit and ext = virtual clock in ns; its Unix readings are the
+// fixed base plus that clock, which is what the native replay's vpNow() yields.
+
+const hasMonotonicBit = uint64(1) << 63
+
+func timeParts(v value) (wall value, ext value, ok bool) {
+	st, isSt := v.(structure)
+	if !isSt || len(st) != 3 {
+		return nil, nil, false
+	}
+	return st[0], st[1], true
+}
+
+func (i *interpreter) timeMono(v value) (ext value, mono bool) {
+	wall, ext, ok := timeParts(v)
+	if !ok {
+		return nil, false
+	}
+	w, isConc := wall.(uint64)
+	if !isConc {
+		return nil, false
+	}
+	return ext, w&hasMonotonicBit != 0
+}
+
+func init() {
+	// fall back to the real method bodies when the receiver has no monotonic reading
+	orig := func(fr *frame, args []value) value {
+		fn := fr.fn
+		fr2 := &frame{i: fr.i, caller: fr.caller, fn: fn}
+		return runBody(fr2, args)
+	}
+	t64 := types.Typ[types.Int64]
+	externals["(time.Time).UnixNano"] = func(fr *frame, args []value) value {
+		ext, mono := fr.i.timeMono(args[0])
+		if !mono {
+			return orig(fr, args)
+		}
+		if t, ok := ext.(*Term); ok {
+			return fr.i.norm(fr.i.ts.BVOp("bvadd", fr.i.ts.BV(64, uint64(clockBaseSec*1_000_000_000)), t), t64)
+		}
+		return clockBaseSec*1_000_000_000 + ext.(int64)
+	}
+	externals["(time.Time).Unix"] = func(fr *frame, args []value) value {
+		ext, mono := fr.i.timeMono(args[0])
+		if !mono {
+			return orig(fr, args)
+		}
+		if t, ok := ext.(*Term); ok {
+			q := fr.i.ts.BVOp("bvsdiv", t, fr.i.ts.BV(64, 1_000_000_000))
+			return fr.i.norm(fr.i.ts.BVOp("bvadd", fr.i.ts.BV(64, uint64(clockBaseSec)), q), t64)
+		}
+		return clockBaseSec + ext.(int64)/1_000_000_000
+	}
+	externals["(time.Time).Nanosecond"] = func(fr *frame, args []value) value {
+		ext, mono := fr.i.timeMono(args[0])
+		if !mono {
+			return orig(fr, args)
+		}
+		if t, ok := ext.(*Term); ok {
+			return fr.i.norm(fr.i.ts.BVOp("bvsrem", t, fr.i.ts.BV(64, 1_000_000_000)), types.Typ[types.Int])
+		}
+		return int(ext.(int64) % 1_000_000_000)
+	}
+}
+
+// runBody executes fn's SSA body in a prepared frame (used by natives that
+// only intercept some receivers).
+func runBody(fr *frame, args []value) value {
+	fn := fr.fn
+	fr.env = make(map[ssa.Value]value)
+	fr.block = fn.Blocks[0]
+	fr.locals = make([]value, len(fn.Locals))
+	for k, l := range fn.Locals {
+		fr.locals[k] = zero(mustDeref(l.Type()))
+		fr.env[l] = &fr.locals[k]
+	}
+	for k, p := range fn.Params {
+		fr.env[p] = args[k]
+	}
+	for fr.block != nil {
+		runFrame(fr)
+	}
+	return fr.result
+}
